@@ -172,7 +172,9 @@ func checkC04() fw.Check {
 													}
 													sc := scenario{tag: tag, v: v, win: w, b: b, mode: mode, model: func(e *simEnv) *pathModel {
 														m := simplePathWin(v, w, dist, reach, 9*time.Millisecond)
-														if !v.Serial && early && pos == "at" && rc == "target" {
+														if !v.Serial && early && pos == "at" && rc == "target" && at > w.first {
+															// (never the FIRST write of a run: the parallel receiver only starts once the first send
+															// has returned, by design, so a reply to the first probe legitimately waits for it)
 															// the sender is still inside the write of this probe (150 ms) when its answers are
 															// read by the receiver: the probe is on the wire, so its answers count
 															e.w.Faults[simnet.FaultKey{Handle: -1, Op: "write", K: at - w.first + 1}] = simnet.Fault{StallAfter: 150 * time.Millisecond}
